@@ -25,6 +25,7 @@ type vf07Op struct {
 	Size   uint64 `json:"size"`
 	Frame  uint64 `json:"frame"`
 	FailAt int    `json:"fail_at"` // mapFn returns an error at this call (1-based); 0 = never
+	Cap    int    `json:"map_cap,omitempty"` // mapFn calls the environment allows (default vf07MapCap)
 }
 
 type vf07State struct {
@@ -95,12 +96,16 @@ func vf07Step(st vf07State, op vf07Op) (vf07State, string, string) {
 	defer func() { mapFn, earlyReserveRegionFn, unmapFn = origMap, origRes, origUnmap }()
 	earlyReserveRegionFn = EarlyReserveRegion
 
+	vf07MapCap := uint64(vf07MapCap)
+	if op.Cap > 0 {
+		vf07MapCap = uint64(op.Cap) // a long-run case: the recording seam allows this many calls
+	}
 	var calls []vf07Call
 	injected := false
 	nMap := 0
 	mapFn = func(p mm.Page, f mm.Frame, fl PageTableEntryFlag) *kernel.Error {
 		nMap++
-		if (op.FailAt != 0 && nMap == op.FailAt) || nMap >= vf07MapCap {
+		if (op.FailAt != 0 && nMap == op.FailAt) || uint64(nMap) >= vf07MapCap {
 			injected = true
 			return vf07InjErr // the failing call maps nothing
 		}
@@ -333,6 +338,35 @@ func TestVerifC07(t *testing.T) {
 			allComplete = false
 		}
 	}
-	run.Finish(allComplete, fmt.Sprintf("all operation sequences of length <= %d from 4 start cursors over 18 cursor-relative sizes x {reserve, map-region, identity-map} x map-failure points", depth),
+	// long runs: regions of 511..1537 pages (one, two, three and four last-level tables' worth) mapped after reservations
+	// that place them at different offsets inside a table; complete, and with a failure in the middle
+	if run.Mine(len(starts)) {
+		for _, pre := range []uint64{0, 1, 510, 511, 512, 513} {
+			for _, pages := range []uint64{511, 512, 513, 514, 1023, 1024, 1025, 1030, 1537} {
+				for _, frame := range []uint64{0, 0x1234} {
+					for _, failAt := range []int{0, 600} {
+						for _, kind := range []string{"mapregion", "identity"} {
+							st := vf07State{Cursor: uint64(tempMappingAddr), Low: uint64(tempMappingAddr)}
+							ops := []vf07Op{}
+							if pre > 0 {
+								ops = append(ops, vf07Op{Kind: "reserve", Size: pre * 4096})
+							}
+							ops = append(ops, vf07Op{Kind: kind, Size: pages*4096 - 7, Frame: frame, FailAt: failAt, Cap: 2000}, vf07Op{Kind: "reserve", Size: 4096})
+							for i, op := range ops {
+								var class, desc string
+								st, class, desc = vf07Step(st, op)
+								run.Case()
+								if class != "" {
+									run.Violate(class, fmt.Sprintf("long %s", verifrt.JSONKey(ops[:i+1])), desc, vf07Replay{uint64(tempMappingAddr), ops[:i+1]})
+									break
+								}
+							}
+						}
+					}
+				}
+			}
+		}
+	}
+	run.Finish(allComplete, fmt.Sprintf("all operation sequences of length <= %d from 4 start cursors over 18 cursor-relative sizes x {reserve, map-region, identity-map} x map-failure points; plus regions of 511..1537 pages after reservations of 0..513 pages, complete and failing at call 600", depth),
 		"BFS over (cursor, lowest returned address); every transition calls the real function; a state is non-trivial/distinct by its (cursor, lowest) pair")
 }
